@@ -199,7 +199,7 @@ func (r *Run) Violations() int { r.mu.Lock(); defer r.mu.Unlock(); return len(r.
 // Violation records a refutation. signature identifies the failing call site / input shape and is
 // matched against the "known" entries of known_findings.json; a match is reported as KNOWN-FINDING
 // and does not fail the check.
-func (r *Run) Violation(signature, detail string, witness any) {
+func (r *Run) Violation(signature, detail string, witness any) (counted bool) {
 	r.mu.Lock()
 	defer r.mu.Unlock()
 	for _, k := range r.known {
@@ -209,7 +209,7 @@ func (r *Run) Violation(signature, detail string, witness any) {
 				r.printed["k:"+k.Signature] = true
 				fmt.Printf("KNOWN-FINDING: property=%s %s\n", r.ID, k.What)
 			}
-			return
+			return false
 		}
 	}
 	v := Violation{Signature: signature, Detail: detail, Witness: witness}
@@ -236,6 +236,7 @@ func (r *Run) Violation(signature, detail string, witness any) {
 		r.violations[199] = v
 		r.counters["violations_beyond_200"]++
 	}
+	return true
 }
 
 func trunc(s string, n int) string {
